@@ -119,7 +119,7 @@ def run(tier):
     if not iexe:
         ck.violation('no-failing-input-found', 'harness rot.cpp does not compile against the repo: ' + err[-600:])
         return ck.finish(trusted=TRUSTED)
-    n = 420 if tier == 'quick' else 12000
+    n = 3000 if tier == "quick" else 40000
     cor = corpus(PID)
     cases = cor + gen_json(ck.rng, 3 if tier == 'quick' else 30) + gen(ck.rng, n)
     ml, il, tabs = run_both(ck, mexe, iexe, cases)
@@ -158,6 +158,9 @@ def run(tier):
         f = findings.get('C14-datetime-restart')
         if f and c['scheme'] == 2 and 'rotated before the restart have disappeared' in msg and same_second_restart(c):
             return '%s open: %s' % (f['id'], f['what'])
+        f = findings.get('C14-date-restart-backwards')
+        if f and c['scheme'] == 1 and 'rotated before the restart have disappeared' in msg and date_backwards_after_restart(c):
+            return '%s open: %s' % (f['id'], f['what'])
         return None
 
     dis, mon = correspond(ck, 'M-ROT vs RotatingFileSink', cases, ml, il, monitor=monitor_c14, shrink=shrink, known_match=known_match)
@@ -176,16 +179,29 @@ def run(tier):
                      extra_cov={'disagreements': len(dis), 'monitor_failures': len(mon), 'corpus_cases': len(cor), 'generator_histogram': hist})
 
 
+def date_backwards_after_restart(c):
+    """an append restart followed by a record whose date is earlier than that restart's date"""
+    rdate = None
+    for o in c['ops'][1:]:
+        if o[0] == 'R':
+            if not o[1]: rdate = max(rdate or '', strf(c, o[3], 1))
+        elif rdate is not None and strf(c, o[2], 1) < rdate:
+            return True
+    return False
+
+
 def same_second_restart(c):
-    """a restart whose start second equals the second of an earlier file-open instant (DateAndTime scheme)"""
-    opens = set()
+    """DateAndTime scheme: after a restart some instant (its start or a record timestamp, i.e. a possible
+    file-open instant) falls in a second in which the previous run may have opened a file"""
+    before = set(); cur = set()
     first = True
     for o in c['ops']:
-        if o[0] == 'R':
-            if not first and o[3] // NS in opens: return True
-            opens.add(o[3] // NS); first = False
-        else:
-            opens.add(o[2] // NS)
+        t = (o[3] if o[0] == 'R' else o[2]) // NS
+        if o[0] == 'R' and not first:
+            before |= cur; cur = set()
+        first = False
+        if t in before: return True
+        cur.add(t)
     return False
 
 
